@@ -71,6 +71,7 @@ func main() {
 		os.Exit(2)
 	}
 	overlay := map[string]string{}
+	loadShimExports(*shims)
 	must(os.RemoveAll(filepath.Join(*out, "src")))
 	for _, dir := range pkgDirs {
 		instrumentPackage(*repo, dir, filepath.Join(*out, "src"), overlay)
@@ -171,6 +172,7 @@ type rewriter struct {
 	rangeMap  map[*ast.RangeStmt]bool
 	selBlocks map[*ast.BlockStmt]bool
 	fnStack   []string
+	seams     []seam
 }
 
 func (r *rewriter) run() {
@@ -201,6 +203,7 @@ func (r *rewriter) run() {
 		r.fnStack = []string{r.funcName(fd)}
 		astutil.Apply(fd.Body, r.pre, r.post)
 	}
+	r.fallbackToReal()
 	if r.useChan {
 		astutil.AddImport(r.fset, r.file, shimBase+"vchan")
 	}
@@ -217,6 +220,88 @@ func (r *rewriter) replaceImport(imp *ast.ImportSpec, old, shim string) {
 	imp.Name = ast.NewIdent(name)
 	imp.Path.Value = strconv.Quote(shimBase + shim)
 	imp.EndPos = 0
+	r.seams = append(r.seams, seam{local: name, real: old, shim: shim})
+}
+
+type seam struct{ local, real, shim string }
+
+// shimExports: exported package-level identifiers of each shim package.
+var shimExports = map[string]map[string]bool{}
+
+func loadShimExports(shims string) {
+	ents, _ := os.ReadDir(shims)
+	for _, e := range ents {
+		if !e.IsDir() {
+			continue
+		}
+		set := map[string]bool{}
+		fs, _ := filepath.Glob(filepath.Join(shims, e.Name(), "*.go"))
+		for _, f := range fs {
+			af, err := parser.ParseFile(token.NewFileSet(), f, nil, parser.SkipObjectResolution)
+			if err != nil {
+				continue
+			}
+			for _, d := range af.Decls {
+				switch d := d.(type) {
+				case *ast.FuncDecl:
+					if d.Recv == nil {
+						set[d.Name.Name] = true
+					}
+				case *ast.GenDecl:
+					for _, s := range d.Specs {
+						switch s := s.(type) {
+						case *ast.TypeSpec:
+							set[s.Name.Name] = true
+						case *ast.ValueSpec:
+							for _, n := range s.Names {
+								set[n.Name] = true
+							}
+						}
+					}
+				}
+			}
+		}
+		shimExports[e.Name()] = set
+	}
+}
+
+// fallbackToReal: a shim covers the part of its package's API the repository uses.
+// A reference to anything else (a change may start using it) keeps pointing at the
+// real package, imported under a second name, so that the instrumented tree still
+// builds; such a call is then simply not a scheduling point / not virtualised.
+func (r *rewriter) fallbackToReal() {
+	need := map[string]string{}
+	for _, s := range r.seams {
+		s := s
+		exp := shimExports[s.shim]
+		if exp == nil {
+			continue
+		}
+		ast.Inspect(r.file, func(n ast.Node) bool {
+			se, ok := n.(*ast.SelectorExpr)
+			if !ok {
+				return true
+			}
+			id, ok := se.X.(*ast.Ident)
+			if !ok || id.Name != s.local || exp[se.Sel.Name] {
+				return true
+			}
+			// (no entry at all: the stub type check gave up on the enclosing expression;
+			// an identifier that is a variable would have been resolved)
+			if obj := r.info.Uses[id]; obj != nil {
+				if _, isPkg := obj.(*types.PkgName); !isPkg {
+					return true
+				}
+			}
+			alias := "_real_" + strings.ReplaceAll(s.real, "/", "_")
+			id.Name = alias
+			need[alias] = s.real
+			return true
+		})
+	}
+	for alias, path := range need {
+		astutil.AddNamedImport(r.fset, r.file, alias, path)
+	}
 }
 
 func (r *rewriter) funcName(fd *ast.FuncDecl) string {
@@ -443,7 +528,7 @@ func (r *rewriter) rewriteRange(n *ast.RangeStmt) ast.Stmt {
 		&ast.AssignStmt{Lhs: []ast.Expr{lhs, ok}, Tok: tok, Rhs: []ast.Expr{call(sel("vchan", "Recv2"), n.X)}},
 		&ast.IfStmt{Cond: &ast.UnaryExpr{Op: token.NOT, X: ok}, Body: &ast.BlockStmt{List: []ast.Stmt{&ast.BranchStmt{Tok: token.BREAK}}}},
 	)
-	body = append(body, n.Body.List...)
+	body = append(body, n.Body) // its own block: the body may redeclare the range variables (`k := k`)
 	return &ast.ForStmt{Body: &ast.BlockStmt{List: body}}
 }
 
@@ -494,7 +579,7 @@ func (r *rewriter) rewriteMapRange(n *ast.RangeStmt) ast.Stmt {
 	if len(lhs) > 0 {
 		body = append(body, &ast.AssignStmt{Lhs: lhs, Tok: n.Tok, Rhs: rhs})
 	}
-	body = append(body, n.Body.List...)
+	body = append(body, n.Body) // its own block: the body may redeclare the range variables (`k := k`)
 	return &ast.ForStmt{
 		Init: &ast.AssignStmt{Lhs: []ast.Expr{ast.NewIdent(it)}, Tok: token.DEFINE, Rhs: []ast.Expr{call(sel("vsched", "RangeMap"), n.X)}},
 		Cond: method("Next"),
